@@ -351,6 +351,11 @@ func (evpool *Pool) AddEvidenceFromConsensus(ev types.Evidence) error {
 		return nil
 	}
 
+	// the same votes can be seen again after the evidence was committed
+	if evpool.isCommitted(ev) {
+		return nil
+	}
+
 	if err := evpool.addPendingEvidence(ev); err != nil {
 		return fmt.Errorf("can't add evidence to pending list: %w", err)
 	}
